@@ -9,7 +9,7 @@ import sys
 ROOT = os.path.join(os.path.dirname(os.path.dirname(os.path.abspath(__file__))), "coq", "theories")
 
 
-STANDALONE = {"AckProofs", "LocksProofs", "LedgerProofs", "PoolProofs"}
+STANDALONE = {"AckProofs", "LocksProofs", "LedgerProofs", "PoolProofs", "WindowProofs"}
 
 
 def statements(modname):
@@ -28,6 +28,7 @@ def emit(pid, title, imports, items, examples=""):
              "    This file only pins statements: every theorem restates a lemma of proofs/ verbatim and is closed by it. *)",
              ("From CacheD Require Import Base Ledger." if "LedgerProofs" in imports else
               "From CacheD Require Import Base PoolProto." if "PoolProofs" in imports else
+              "From CacheD Require Import Base Sketch Model Window.\nFrom CacheD.proofs Require Import Defs." if "WindowProofs" in imports else
               "From CacheD Require Import Base Locks.\nLocal Open Scope nat_scope." if "LocksProofs" in imports else
               "From CacheD Require Import Base Sketch Model%s." % (" Ack" if "AckProofs" in imports else "")),
              "From CacheD.proofs Require Import %s." % " ".join(["Closing"] + [i for i in imports if i not in ("Closing",)]) if not (set(imports) & STANDALONE)
@@ -70,6 +71,16 @@ spec("C01_ledger", "Total weight never exceeds the configured cache weight: ever
 spec("C15_pool", "Reads never wait for the sketch; access records are counted or dropped: every interleaving of any number of readers, buffers and the consumer", ["PoolProofs"], [
     ("PoolProofs", "hits_conserved", "all_interleavings_hits_conserved"), ("PoolProofs", "added_conserved", "all_interleavings_added_conserved"),
     ("PoolProofs", "pool_bounded", None), ("PoolProofs", "reader_never_waits_for_consumer", None),
+])
+spec("C10_window", "Expiry sweeps with overtaking: put_or_update and the worker's put with time-to-live split at their schedule points", ["WindowProofs"], [
+    ("WindowProofs", "upsert_halves_compose", None), ("WindowProofs", "worker_halves_compose", None),
+    ("WindowProofs", "atomic_schedule_refines", None), ("WindowProofs", "atomic_schedule_sweep_spares", None),
+    ("WindowProofs", "sweep_inside_upsert_window_refuted", "known_finding_sweep_inside_upsert_window"),
+    ("WindowProofs", "stale_duplicate_index_entry_refuted", "known_finding_stale_duplicate_index_entry"),
+])
+spec("C08_window", "put_or_update split at its schedule point: the two halves are the atomic call when nothing overtakes them", ["WindowProofs"], [
+    ("WindowProofs", "upsert_halves_compose", None), ("WindowProofs", "atomic_schedule_refines", None),
+    ("WindowProofs", "sweep_inside_upsert_window_refuted", "known_finding_sweep_inside_upsert_window"),
 ])
 spec("C01", "Total weight never exceeds the configured cache weight", [I, A], [
     (A, "used_bounded_step", None), (A, "used_bounded_run", None), (I, "used_nonneg", None),
